@@ -1,5 +1,149 @@
-"""WITNESS: compile-pass / compile-fail probe programs (filled in below)."""
+"""WITNESS: compile-pass / compile-fail probe programs, judged by the stable rustc the repository is
+built with, against an rlib of /repo's epserde with the working-tree derive macro patched in.
+
+probes/<Cnn>/<name>.rs            header lines:  //@ expect: pass | fail[:E0xxx,E0yyy]
+                                                 //@ rule: <rule id>   //@ what: <one line>
+probes/<Cnn>/<name>.twin.rs       compiling twin of a failing probe (differs only in the offending lines)
+A twin (or a pass probe's negative twin) that stops behaving as declared means the witness is stale: that is
+a tool error (exit 3, no VIOLATION line), not a verdict.
+"""
+import concurrent.futures
+import json
+import os
+import re
+import shutil
+import subprocess
+
+from . import common
+from .common import WORK, VERIF, Lock
 
 
-def run_probes(ctx, rep, prop):
-    return 0
+class WitnessStale(Exception):
+    pass
+
+
+def host(facts):
+    """Build the host crate once per tree; returns (deps_dir, epserde_rlib)."""
+    marker = os.path.join(facts.dir, "probehost.json")
+    if os.path.exists(marker):
+        j = json.load(open(marker))
+        if os.path.exists(j["rlib"]):
+            return j["deps"], j["rlib"]
+    with Lock("probehost"):
+        d = os.path.join(WORK, "witness", facts.hash, "probehost")
+        shutil.rmtree(d, ignore_errors=True)
+        os.makedirs(os.path.join(d, "src"))
+        open(os.path.join(d, "src", "lib.rs"), "w").write("pub use epserde;\n")
+        common.write_witness_manifest(d, "probehost", facts.repo)
+        tgt = os.path.join(WORK, "tgt", "probehost")
+        env = dict(os.environ, CARGO_TARGET_DIR=tgt, CARGO_NET_OFFLINE="true")
+        env.pop("RUSTC_WORKSPACE_WRAPPER", None)
+        env.pop("RUSTFLAGS", None)
+        p = subprocess.run(["cargo", "build", "--offline", "--message-format=json"], cwd=d, env=env, stdout=subprocess.PIPE, stderr=subprocess.PIPE, text=True)
+        if p.returncode != 0:
+            raise common.ExportError("probe host does not build:\n" + p.stderr[-2000:])
+        rlib = None
+        for line in p.stdout.splitlines():
+            try:
+                j = json.loads(line)
+            except ValueError:
+                continue
+            if j.get("reason") == "compiler-artifact" and j.get("target", {}).get("name") == "epserde":
+                for f in j.get("filenames", []):
+                    if f.endswith(".rlib"):
+                        rlib = f
+        deps = os.path.join(tgt, "debug", "deps")
+        if rlib is None:
+            raise common.ExportError("probe host: epserde rlib not found")
+        json.dump({"deps": deps, "rlib": rlib}, open(marker, "w"))
+        return deps, rlib
+
+
+def header(path):
+    h = {"expect": "pass", "codes": [], "rule": "WITNESS", "what": ""}
+    for line in open(path):
+        m = re.match(r"//@\s*(\w+):\s*(.*)", line)
+        if not m:
+            if line.strip() and not line.startswith("//"):
+                break
+            continue
+        k, v = m.group(1), m.group(2).strip()
+        if k == "expect":
+            if v.startswith("fail"):
+                h["expect"] = "fail"
+                if ":" in v:
+                    h["codes"] = [c.strip() for c in v.split(":", 1)[1].split(",")]
+            else:
+                h["expect"] = "pass"
+        else:
+            h[k] = v
+    return h
+
+
+def compile_probe(path, deps, rlib, outdir):
+    out = os.path.join(outdir, os.path.basename(path) + ".rmeta")
+    cmd = ["rustc", "--edition", "2021", "--crate-name", "probe", "--crate-type", "lib", "--emit=metadata", "-o", out, "--error-format=json",
+           "--extern", "epserde=" + rlib, "-L", "dependency=" + deps, "-A", "warnings", "--cap-lints", "allow", path]
+    env = dict(os.environ)
+    env.pop("RUSTFLAGS", None)
+    p = subprocess.run(cmd, stdout=subprocess.PIPE, stderr=subprocess.PIPE, text=True, env=env)
+    codes, msgs = [], []
+    for line in p.stderr.splitlines():
+        try:
+            j = json.loads(line)
+        except ValueError:
+            continue
+        if j.get("level") == "error":
+            if j.get("code") and j["code"].get("code"):
+                codes.append(j["code"]["code"])
+            msgs.append(j.get("message", "")[:160])
+    return p.returncode == 0, codes, msgs
+
+
+def run_probes(ctx, rep, prop, only_rule=None):
+    pdir = os.path.join(VERIF, "probes", prop)
+    if not os.path.isdir(pdir):
+        return 0
+    files = sorted(f for f in os.listdir(pdir) if f.endswith(".rs"))
+    if not files:
+        return 0
+    deps, rlib = host(ctx.facts)
+    outdir = os.path.join(WORK, "probeout", "%s-%d" % (prop, os.getpid()))
+    shutil.rmtree(outdir, ignore_errors=True)
+    os.makedirs(outdir)
+    results = {}
+    with concurrent.futures.ThreadPoolExecutor(max_workers=12) as ex:
+        futs = {ex.submit(compile_probe, os.path.join(pdir, f), deps, rlib, outdir): f for f in files}
+        for fu in concurrent.futures.as_completed(futs):
+            results[futs[fu]] = fu.result()
+    shutil.rmtree(outdir, ignore_errors=True)
+    n = 0
+    stale = []
+    for f in files:
+        ok, codes, msgs = results[f]
+        h = header(os.path.join(pdir, f))
+        name = f[:-3]
+        if name.endswith(".twin"):
+            # twins must compile
+            if not ok:
+                stale.append("%s does not compile any more (%s %s)" % (f, codes[:2], msgs[:1]))
+            continue
+        n += 1
+        rule = h.get("rule", "WITNESS")
+        if h["expect"] == "pass":
+            rep.oblige(ok)
+            if not ok:
+                rep.add(rule, "probe:" + name, "the program probes/%s/%s (%s) must compile but rustc rejects it: %s %s" % (prop, f, h.get("what", ""), codes[:3], msgs[:1]), "probes/%s/%s" % (prop, f))
+        else:
+            rep.oblige(not ok)
+            if ok:
+                rep.add(rule, "probe:" + name, "the program probes/%s/%s must be rejected by rustc but compiles: %s" % (prop, f, h.get("what", "")), "probes/%s/%s" % (prop, f))
+            elif h["codes"] and not (set(codes) & set(h["codes"])) and codes:
+                # rejected, but for another reason than the one the probe is about: only acceptable when the twin is healthy
+                rep.notes.append("probe %s rejected with %s (expected one of %s)" % (f, codes[:3], h["codes"]))
+        if len(rep.samples) < 12:
+            rep.sample({"probe": "%s/%s" % (prop, f), "expect": h["expect"], "compiles": ok, "codes": codes[:3]})
+    rep.count("probes_judged", n)
+    if stale:
+        raise WitnessStale("; ".join(stale))
+    return n
